@@ -1596,6 +1596,9 @@ class Interp:
                 v1 = spec['variant'](self, env)
                 ctx.oblige(f"{lid[0]}::loop{lid[1]}::variant-decreases", zand(v1 < variant0, variant0 >= 0), kind='variant')
             raise EndPath(f"end of arbitrary iteration of {lid}")
+        # the loop is left because its condition is false: clauses about the exit state (emitted under this path condition)
+        if spec.get('on_exit'):
+            spec['on_exit'](self, env, pre_env)
         return
 
 
